@@ -3,7 +3,7 @@
 # demo passes without the patch, the patch applies and builds, the unedited suite passes with it, the demo fails with it.
 export GOFLAGS=-mod=mod GOPROXY=off GOSUMDB=off GOTOOLCHAIN=local
 one() {
-  d=${1%/}; name=$(basename $d); S=/tmp/reconf-$name
+  d=$(realpath ${1%/}); name=$(basename $d); S=/tmp/reconf-$name
   rm -rf $S; git -C /repo worktree add -q --detach $S HEAD || { echo "$name: worktree failed"; return; }
   dir=$(jq -r .demonstration.package_dir $d/meta.json); cmd=$(jq -r .demonstration.command $d/meta.json)
   cp $d/*_test.go $S/$dir/
